@@ -163,5 +163,14 @@ def get_ast(func):
     except (OSError, IOError):
         return None
     source = inspect.cleandoc('\n' + rawsource)
-    module = ast.parse(source)
-    return module.body[0]
+    try:
+        module = ast.parse(source)
+    except SyntaxError:
+        # the lines inspect found are not a statement of their own, eg.
+        # a lambda in the middle of an expression spanning several lines
+        return None
+    node = module.body[0] if module.body else None
+    if not isinstance(node, (ast.FunctionDef, ast.AsyncFunctionDef)):
+        # eg. a lambda: inspect returns the whole statement it is part of
+        return None
+    return node
